@@ -39,6 +39,9 @@ const (
 	c18fP     = 1
 	c18fS     = 2
 	c18fOther = 3
+	// control-flow sentinels of the interpreter (never values of a variable)
+	c18fContinue = -2
+	c18fBreak    = -3
 )
 
 type c18fWorld struct{ save, pFail, sFail bool }
@@ -184,6 +187,9 @@ func (it *c18fInterp) function(ft *ast.FuncType, body *ast.BlockStmt, fns map[st
 		}
 	}
 	ret, v := it.block(body.List, env)
+	if ret && v < 0 {
+		it.refuse("break / continue outside the response middleware loop")
+	}
 	if !ret {
 		if len(env.results) > 0 {
 			return env.vals[env.results[len(env.results)-1]]
@@ -438,6 +444,16 @@ func (it *c18fInterp) stmt(st ast.Stmt, env *c18fEnv) (bool, int) {
 			return true, env.vals[env.results[len(env.results)-1]]
 		}
 		return true, it.value(x.Results[len(x.Results)-1], env)
+	case *ast.BranchStmt:
+		// only inside the body of the response middleware loop (anywhere else the sentinel
+		// reaches a place that refuses it)
+		if x.Label == nil && x.Tok == token.CONTINUE {
+			return true, c18fContinue
+		}
+		if x.Label == nil && x.Tok == token.BREAK {
+			return true, c18fBreak
+		}
+		it.refuse("branch statement outside the subset")
 	case *ast.RangeStmt:
 		// the loop over the client's response middleware list: run the body once per built-in element
 		if sel, ok := x.X.(*ast.SelectorExpr); ok && sel.Sel.Name == "afterResponse" && env.fns["\x00list"] != "" {
@@ -448,6 +464,12 @@ func (it *c18fInterp) stmt(st ast.Stmt, env *c18fEnv) (bool, int) {
 			for _, el := range strings.Split(env.fns["\x00list"], ",") {
 				env.fns[v.Name] = el
 				if ret, val := it.block(x.Body.List, env); ret {
+					if val == c18fContinue {
+						continue
+					}
+					if val == c18fBreak {
+						break
+					}
 					return true, val
 				}
 			}
@@ -626,6 +648,9 @@ func c18FinishFacts(c *ctx) (string, error) {
 			env := &c18fEnv{vals: map[string]int{}, fns: map[string]string{"\x00list": strings.Join(builtins, ",")}}
 			if ret, _ := it.stmt(loop, env); ret {
 				it.refuse("the response middleware loop returns")
+			}
+			if _, ok := loop.Value.(*ast.Ident); !ok {
+				it.refuse("the response middleware loop has no value variable")
 			}
 			// the recorded error: the one `….Err` the loop assigns
 			key := ""
